@@ -209,3 +209,31 @@ func VerifRangeScan(exec VerifExecutor, nShards int, singleShard bool, timeout t
 		}
 	}
 }
+
+// VerifList runs the client's List for one shard (a partition key is given) or over nShards shards on top of
+// a fake executor, and reports what arrives on the result channel and whether the channel gets closed within
+// the timeout.
+func VerifList(exec VerifExecutor, nShards int, singleShard bool, timeout time.Duration) (res []ListResult, closed bool) {
+	ids := make([]int64, nShards)
+	for i := range ids {
+		ids[i] = int64(i)
+	}
+	c := &clientImpl{shardManager: &verifShards{ids: ids}, executor: exec}
+	var opts []ListOption
+	if singleShard {
+		opts = append(opts, PartitionKey("p"))
+	}
+	ch := c.List(context.Background(), "a", "z", opts...)
+	deadline := time.After(timeout)
+	for {
+		select {
+		case r, ok := <-ch:
+			if !ok {
+				return res, true
+			}
+			res = append(res, r)
+		case <-deadline:
+			return res, false
+		}
+	}
+}
